@@ -970,6 +970,11 @@ assign_float_mpq(T& to, const mpq_class& from, Rounding_Dir dir) {
   }
   else {
     --exponent;
+    if (exponent < Float<T>::Binary::EXPONENT_MIN) {
+      // Denormalized: one mantissa bit less than computed is available.
+      inexact = (inexact || mpz_odd_p(mantissa));
+      mpz_tdiv_q_2exp(mantissa, mantissa, 1);
+    }
   }
   if (exponent > Float<T>::Binary::EXPONENT_MAX) {
     mpz_clear(mantissa);
